@@ -41,7 +41,7 @@ def dec (bs : Bits) : Except Err ServiceOptions :=
         isBroadcast := getBit bs 4, isOvcm := getBit bs 5, priority := getField bs 6 2 }
 
 /-- in-range field values: `priority_level` 0…3 (asserted by the constructor), two reserved bits -/
-def WF (s : ServiceOptions) : Prop := s.priority < 4 ∧ s.reserved.length = 2
+def WF (s : ServiceOptions) : Prop := s.priority < 2 ^ 2 ∧ s.reserved.length = 2
 
 instance (s : ServiceOptions) : Decidable s.WF := by unfold WF; exact inferInstance
 
@@ -49,53 +49,45 @@ end ServiceOptions
 
 /-! ## CSBK -/
 
-/-- the attributes of a `CSBK` object (all of them; the ones an opcode does not use keep the
-constructor's defaults, exactly as in Python) -/
+/-- the opcode-specific parameters of a `CSBK` object.  Every other attribute of the Python object
+keeps the constructor's default (the harness checks that on the real code); the opcode is determined
+by the variant (`Csbk.opcode`). -/
+inductive CsbkPayload where
+  /-- BS_Dwn_Act -/
+  | bsDwnAct (bsAddress sourceAddress : Nat)
+  /-- UU_V_Req -/
+  | uuVReq (serviceOptions : ServiceOptions) (targetAddress sourceAddress : Nat)
+  /-- UU_Ans_Rsp -/
+  | uuAnsRsp (serviceOptions : ServiceOptions) (answerResponse targetAddress sourceAddress : Nat)
+  /-- NACK_Rsp -/
+  | nackRsp (additionalInformationField sourceType serviceType reasonCode sourceAddress targetAddress : Nat)
+  /-- Pre_CSBK -/
+  | preamble (contentFollowsPreambles targetIsIndividual : Bool) (blocksToFollow targetAddress sourceAddress : Nat)
+  /-- CT_CSBK -/
+  | channelTiming (syncAge generation leaderIdentifier newLeader leaderDynamicIdentifier
+      channelTimingOpcode sourceIdentifier sourceDynamicIdentifier : Nat)
+  /-- Hytera IPSC sync (manufacturer specific, 8 raw octets) -/
+  | hyteraIpscSync (rawData : Bytes)
+  /-- C_ALOHA -/
+  | aloha (tsccasSupport siteTimeslotSynchronized : Bool) (documentVersionControl : Nat)
+      (tsccIsOffsetTiming tsActiveConnection : Bool) (alohaMask serviceFunction nrandWait : Nat)
+      (tsccRegRequired : Bool) (tsccBackoff systemIdentityCode targetAddress : Nat)
+  /-- C_BCAST -/
+  | broadcast (announcementType : Nat) (broadcastParams : Bits) (tsccRegRequired : Bool)
+      (tsccBackoff systemIdentityCode : Nat)
+deriving DecidableEq, Repr, Inhabited
+
 structure Csbk where
   lastBlock : Bool
   protectFlag : Bool
-  csbko : Nat
   fid : Nat
   crc : Nat
-  bsAddress : Nat
-  sourceAddress : Nat
-  serviceOptions : Option ServiceOptions
-  targetAddress : Nat
-  answerResponse : Option Nat
-  additionalInformationField : Option Nat
-  sourceType : Option Nat
-  serviceType : Option Nat
-  reasonCode : Option Nat
-  contentFollowsPreambles : Bool
-  targetIsIndividual : Bool
-  blocksToFollow : Nat
-  syncAge : Nat
-  generation : Nat
-  leaderIdentifier : Nat
-  newLeader : Nat
-  leaderDynamicIdentifier : Nat
-  channelTimingOpcode : Nat
-  sourceIdentifier : Nat
-  sourceDynamicIdentifier : Nat
-  rawData : Bytes
-  tsccasSupport : Bool
-  siteTimeslotSynchronized : Bool
-  documentVersionControl : Nat
-  tsccIsOffsetTiming : Bool
-  tsActiveConnection : Bool
-  alohaMask : Nat
-  serviceFunction : Nat
-  nrandWait : Nat
-  tsccRegRequired : Bool
-  tsccBackoff : Nat
-  systemIdentityCode : Nat
-  broadcastParams : Bits
-  announcementType : Nat
+  payload : CsbkPayload
 deriving DecidableEq, Repr, Inhabited
 
 namespace Csbk
 
-/-- opcode values (checked against the extracted `CsbkOpcodes` in `Lemmas/PduCsbk.lean`) -/
+/-- opcode values (each is checked to be a defined `CsbkOpcodes` member in `Props/C03.lean`) -/
 def opBsDwnAct : Nat := 56
 def opUuVReq : Nat := 4
 def opUuAnsRsp : Nat := 5
@@ -106,64 +98,46 @@ def opHyteraIpscSync : Nat := 8
 def opAloha : Nat := 25
 def opBroadcast : Nat := 40
 
-/-- the constructor's defaults for everything but the four leading parameters -/
-def base (lb pf : Bool) (op fid crc : Nat) : Csbk :=
-  { lastBlock := lb, protectFlag := pf, csbko := op, fid := fid, crc := crc,
-    bsAddress := 0, sourceAddress := 0, serviceOptions := none, targetAddress := 0,
-    answerResponse := none, additionalInformationField := none, sourceType := none,
-    serviceType := none, reasonCode := none, contentFollowsPreambles := false,
-    targetIsIndividual := false, blocksToFollow := 0, syncAge := 0, generation := 0,
-    leaderIdentifier := 0, newLeader := 0, leaderDynamicIdentifier := 0, channelTimingOpcode := 0,
-    sourceIdentifier := 0, sourceDynamicIdentifier := 0, rawData := [], tsccasSupport := false,
-    siteTimeslotSynchronized := false, documentVersionControl := 3, tsccIsOffsetTiming := false,
-    tsActiveConnection := false, alohaMask := 0, serviceFunction := 0, nrandWait := 0,
-    tsccRegRequired := false, tsccBackoff := 1, systemIdentityCode := 0, broadcastParams := [],
-    announcementType := 7 }
+/-- `self.csbko.value` -/
+def opcode : CsbkPayload → Nat
+  | .bsDwnAct .. => opBsDwnAct
+  | .uuVReq .. => opUuVReq
+  | .uuAnsRsp .. => opUuAnsRsp
+  | .nackRsp .. => opNackRsp
+  | .preamble .. => opPreamble
+  | .channelTiming .. => opChannelTiming
+  | .hyteraIpscSync .. => opHyteraIpscSync
+  | .aloha .. => opAloha
+  | .broadcast .. => opBroadcast
 
-/-- `x.as_bits()` of an optional `ServiceOptions` (Python raises AttributeError on `None`; the
-well-formedness predicate excludes that case) -/
-def soBits (s : Option ServiceOptions) : Bits :=
-  match s with
-  | some s => s.enc
-  | none => []
+/-- the opcode specific part of `as_bits()` (bits 16 … 79) -/
+def payloadBits : CsbkPayload → Bits
+  | .bsDwnAct bs src =>
+    natToBits 16 0 ++ (natToBits 24 bs ++ natToBits 24 src)
+  | .uuVReq so tgt src =>
+    so.enc ++ (natToBits 8 0 ++ (natToBits 24 tgt ++ natToBits 24 src))
+  | .uuAnsRsp so ar tgt src =>
+    so.enc ++ (natToBits 8 ar ++ (natToBits 24 tgt ++ natToBits 24 src))
+  | .nackRsp aif st svc rc src tgt =>
+    -- bitarray([aif == Valid, source_type == MSSourced]) + service_type + reason_code + src + tgt
+    [aif == 1, st == 1] ++ (natToBits 6 svc ++ (natToBits 8 rc ++ (natToBits 24 src ++ natToBits 24 tgt)))
+  | .preamble cf ind btf tgt src =>
+    [!cf, !ind] ++ (natToBits 6 0 ++ (natToBits 8 btf ++ (natToBits 24 tgt ++ natToBits 24 src)))
+  | .channelTiming age gen lid nl ldi cto sid sdi =>
+    natToBits 11 age ++ (natToBits 5 gen ++ (natToBits 20 lid ++ (natToBits 1 nl ++ (natToBits 2 ldi
+      ++ ([getBit (natToBits 2 cto) 0] ++ (natToBits 20 sid ++ ([false] ++ (natToBits 2 sdi
+      ++ [getBit (natToBits 2 cto) 1]))))))))
+  | .hyteraIpscSync raw => bytesToBits raw
+  | .aloha tsccas sync dvc off act mask sf nrand reg backoff sys tgt =>
+    [false, tsccas, sync] ++ (natToBits 3 dvc ++ ([off, act] ++ (natToBits 5 mask ++ (natToBits 2 sf
+      ++ (natToBits 4 nrand ++ ([reg] ++ (natToBits 4 backoff ++ (natToBits 16 sys ++ natToBits 24 tgt))))))))
+  | .broadcast at' params reg backoff sys =>
+    natToBits 5 at' ++ (slice params 0 14 ++ ([reg] ++ (natToBits 4 backoff ++ (natToBits 16 sys
+      ++ slice params 14 24))))
 
-/-- `as_bits()` without the trailing CRC: header + opcode specific part -/
+/-- `as_bits()` without the trailing CRC -/
 def body (p : Csbk) : Bits :=
-  [p.lastBlock, p.protectFlag] ++ (natToBits 6 p.csbko ++ (natToBits 8 p.fid ++
-  (if p.csbko = opBsDwnAct then
-    natToBits 16 0 ++ (natToBits 24 p.bsAddress ++ natToBits 24 p.sourceAddress)
-  else if p.csbko = opUuVReq then
-    soBits p.serviceOptions ++ (natToBits 8 0 ++ (natToBits 24 p.targetAddress ++ natToBits 24 p.sourceAddress))
-  else if p.csbko = opUuAnsRsp then
-    soBits p.serviceOptions ++ (natToBits 8 (p.answerResponse.getD 0)
-      ++ (natToBits 24 p.targetAddress ++ natToBits 24 p.sourceAddress))
-  else if p.csbko = opNackRsp then
-    [p.additionalInformationField == some 1, p.sourceType == some 1]
-      ++ (natToBits 6 (p.serviceType.getD 0) ++ (natToBits 8 (p.reasonCode.getD 0)
-      ++ (natToBits 24 p.sourceAddress ++ natToBits 24 p.targetAddress)))
-  else if p.csbko = opPreamble then
-    [!p.contentFollowsPreambles, !p.targetIsIndividual]
-      ++ (natToBits 6 0 ++ (natToBits 8 p.blocksToFollow
-      ++ (natToBits 24 p.targetAddress ++ natToBits 24 p.sourceAddress)))
-  else if p.csbko = opChannelTiming then
-    natToBits 11 p.syncAge ++ (natToBits 5 p.generation ++ (natToBits 20 p.leaderIdentifier
-      ++ (natToBits 1 p.newLeader ++ (natToBits 2 p.leaderDynamicIdentifier
-      ++ ([getBit (natToBits 2 p.channelTimingOpcode) 0] ++ (natToBits 20 p.sourceIdentifier
-      ++ ([false] ++ (natToBits 2 p.sourceDynamicIdentifier
-      ++ [getBit (natToBits 2 p.channelTimingOpcode) 1]))))))))
-  else if p.csbko = opHyteraIpscSync then
-    bytesToBits p.rawData
-  else if p.csbko = opAloha then
-    [false, p.tsccasSupport, p.siteTimeslotSynchronized] ++ (natToBits 3 p.documentVersionControl
-      ++ ([p.tsccIsOffsetTiming, p.tsActiveConnection] ++ (natToBits 5 p.alohaMask
-      ++ (natToBits 2 p.serviceFunction ++ (natToBits 4 p.nrandWait ++ ([p.tsccRegRequired]
-      ++ (natToBits 4 p.tsccBackoff ++ (natToBits 16 p.systemIdentityCode
-      ++ natToBits 24 p.targetAddress))))))))
-  else if p.csbko = opBroadcast then
-    natToBits 5 p.announcementType ++ (slice p.broadcastParams 0 14 ++ ([p.tsccRegRequired]
-      ++ (natToBits 4 p.tsccBackoff ++ (natToBits 16 p.systemIdentityCode
-      ++ slice p.broadcastParams 14 24))))
-  else [])))
+  [p.lastBlock, p.protectFlag] ++ (natToBits 6 (opcode p.payload) ++ (natToBits 8 p.fid ++ payloadBits p.payload))
 
 /-- `as_bits` -/
 def enc (p : Csbk) : Bits := body p ++ natToBits 16 p.crc
@@ -184,24 +158,20 @@ def dec (f : Bits → Nat) (bs : Bits) : Except Err Csbk :=
   | .error e => .error e
   | .ok fid =>
   let crc := getField bs 80 16
-  let b := base lb pf op fid crc
+  let ret := fun (pl : CsbkPayload) => (Except.ok (init f ⟨lb, pf, fid, crc, pl⟩) : Except Err Csbk)
   if op = opBsDwnAct then
-    .ok (init f { b with bsAddress := getField bs 32 24, sourceAddress := getField bs 56 24 })
+    ret (.bsDwnAct (getField bs 32 24) (getField bs 56 24))
   else if op = opUuVReq then
     match ServiceOptions.dec (slice bs 16 8) with
     | .error e => .error e
-    | .ok so =>
-    .ok (init f { b with serviceOptions := some so, targetAddress := getField bs 32 24,
-                           sourceAddress := getField bs 56 24 })
+    | .ok so => ret (.uuVReq so (getField bs 32 24) (getField bs 56 24))
   else if op = opUuAnsRsp then
     match ServiceOptions.dec (slice bs 16 8) with
     | .error e => .error e
     | .ok so =>
     match eAnswerResponse.dec (getField bs 24 8) with
     | .error e => .error e
-    | .ok ar =>
-    .ok (init f { b with serviceOptions := some so, answerResponse := some ar,
-                           targetAddress := getField bs 32 24, sourceAddress := getField bs 56 24 })
+    | .ok ar => ret (.uuAnsRsp so ar (getField bs 32 24) (getField bs 56 24))
   else if op = opNackRsp then
     match eAdditionalInformationField.dec (b2n (getBit bs 16)) with
     | .error e => .error e
@@ -214,116 +184,64 @@ def dec (f : Bits → Nat) (bs : Bits) : Except Err Csbk :=
     | .ok svc =>
     match eReasonCode.dec (getField bs 24 8) with
     | .error e => .error e
-    | .ok rc =>
-    .ok (init f { b with additionalInformationField := some aif, sourceType := some st,
-                           serviceType := some svc, reasonCode := some rc,
-                           sourceAddress := getField bs 32 24, targetAddress := getField bs 56 24 })
+    | .ok rc => ret (.nackRsp aif st svc rc (getField bs 32 24) (getField bs 56 24))
   else if op = opPreamble then
-    .ok (init f { b with contentFollowsPreambles := !getBit bs 16, targetIsIndividual := !getBit bs 17,
-                           blocksToFollow := getField bs 24 8, targetAddress := getField bs 32 24,
-                           sourceAddress := getField bs 56 24 })
+    ret (.preamble (!getBit bs 16) (!getBit bs 17) (getField bs 24 8) (getField bs 32 24) (getField bs 56 24))
   else if op = opChannelTiming then
     match eDynamicIdentifier.dec (getField bs 53 2) with
     | .error e => .error e
     | .ok ldi =>
-    match eChannelTimingOpcode.dec (bitsToNat [getBit bs 55, getBit bs 79]) with
-    | .error e => .error e
-    | .ok cto =>
     match eDynamicIdentifier.dec (getField bs 77 2) with
     | .error e => .error e
     | .ok sdi =>
-    .ok (init f { b with syncAge := getField bs 16 11, generation := getField bs 27 5,
-                           leaderIdentifier := getField bs 32 20, newLeader := b2n (getBit bs 52),
-                           leaderDynamicIdentifier := ldi, channelTimingOpcode := cto,
-                           sourceIdentifier := getField bs 56 20, sourceDynamicIdentifier := sdi })
+    -- the constructor converts the integer channel_timing_opcode
+    match eChannelTimingOpcode.dec (bitsToNat [getBit bs 55, getBit bs 79]) with
+    | .error e => .error e
+    | .ok cto =>
+    ret (.channelTiming (getField bs 16 11) (getField bs 27 5) (getField bs 32 20) (b2n (getBit bs 52))
+          ldi cto (getField bs 56 20) sdi)
   else if op = opHyteraIpscSync then
-    .ok (init f { b with rawData := bitsToBytes (slice bs 16 64) })
+    ret (.hyteraIpscSync (bitsToBytes (slice bs 16 64)))
   else if op = opBroadcast then
     match eAnnouncementType.dec (getField bs 16 5) with
     | .error e => .error e
     | .ok at' =>
-    .ok (init f { b with announcementType := at', tsccRegRequired := getBit bs 35,
-                           tsccBackoff := getField bs 36 4, systemIdentityCode := getField bs 40 16,
-                           broadcastParams := slice bs 21 14 ++ slice bs 56 24 })
+    ret (.broadcast at' (slice bs 21 14 ++ slice bs 56 24) (getBit bs 35) (getField bs 36 4) (getField bs 40 16))
   else if op = opAloha then
+    -- the constructor converts the integer service_function
     match eRandomAccessServiceFunction.dec (getField bs 29 2) with
     | .error e => .error e
     | .ok sf =>
-    .ok (init f { b with tsccasSupport := getBit bs 17, siteTimeslotSynchronized := getBit bs 18,
-                           documentVersionControl := getField bs 19 3, tsccIsOffsetTiming := getBit bs 22,
-                           tsActiveConnection := getBit bs 23, alohaMask := getField bs 24 5,
-                           serviceFunction := sf, nrandWait := getField bs 31 4,
-                           tsccRegRequired := getBit bs 35, tsccBackoff := getField bs 36 4,
-                           systemIdentityCode := getField bs 40 16, targetAddress := getField bs 56 24 })
+    ret (.aloha (getBit bs 17) (getBit bs 18) (getField bs 19 3) (getBit bs 22) (getBit bs 23)
+          (getField bs 24 5) sf (getField bs 31 4) (getBit bs 35) (getField bs 36 4) (getField bs 40 16)
+          (getField bs 56 24))
   else .error .notImplemented
 
-/-- the nine opcodes with a PDU layout in the library -/
-def implemented : List Nat :=
-  [opBsDwnAct, opUuVReq, opUuAnsRsp, opNackRsp, opPreamble, opChannelTiming, opHyteraIpscSync,
-   opAloha, opBroadcast]
+/-- in-range field values of the opcode specific parameters -/
+def CsbkPayload.WF : CsbkPayload → Prop
+  | .bsDwnAct bs src => bs < 2 ^ 24 ∧ src < 2 ^ 24
+  | .uuVReq so tgt src => so.WF ∧ tgt < 2 ^ 24 ∧ src < 2 ^ 24
+  | .uuAnsRsp so ar tgt src => so.WF ∧ eAnswerResponse.defined ar = true ∧ tgt < 2 ^ 24 ∧ src < 2 ^ 24
+  | .nackRsp aif st svc rc src tgt =>
+    eAdditionalInformationField.defined aif = true ∧ eSourceType.defined st = true ∧
+    eCsbkOpcodes.defined svc = true ∧ eReasonCode.defined rc = true ∧ src < 2 ^ 24 ∧ tgt < 2 ^ 24
+  | .preamble _ _ btf tgt src => btf < 2 ^ 8 ∧ tgt < 2 ^ 24 ∧ src < 2 ^ 24
+  | .channelTiming age gen lid nl ldi cto sid sdi =>
+    age < 2 ^ 11 ∧ gen < 2 ^ 5 ∧ lid < 2 ^ 20 ∧ nl < 2 ^ 1 ∧ eDynamicIdentifier.defined ldi = true ∧
+    eChannelTimingOpcode.defined cto = true ∧ sid < 2 ^ 20 ∧ eDynamicIdentifier.defined sdi = true
+  | .hyteraIpscSync raw => raw.length = 8 ∧ isBytes raw = true
+  | .aloha _ _ dvc _ _ mask sf nrand _ backoff sys tgt =>
+    dvc < 2 ^ 3 ∧ mask < 2 ^ 5 ∧ eRandomAccessServiceFunction.defined sf = true ∧ nrand < 2 ^ 4 ∧
+    backoff < 2 ^ 4 ∧ sys < 2 ^ 16 ∧ tgt < 2 ^ 24
+  | .broadcast at' params _ backoff sys =>
+    eAnnouncementType.defined at' = true ∧ params.length = 38 ∧ backoff < 2 ^ 4 ∧ sys < 2 ^ 16
 
-/-- in-range field values for the opcode of `p`, every attribute the opcode does not carry at the
-constructor's default (i.e. `p` is what `CSBK(csbko=…, <the opcode's parameters>)` builds) -/
+instance (pl : CsbkPayload) : Decidable (CsbkPayload.WF pl) := by
+  cases pl <;> (unfold CsbkPayload.WF; exact inferInstance)
+
+/-- a CSBK built from in-range field values: feature set a defined member, 16-bit CRC, payload in range -/
 def WF (p : Csbk) : Prop :=
-  eFeatureSetIDs.defined p.fid = true ∧ p.crc < 2 ^ 16 ∧
-  ( (p.csbko = opBsDwnAct ∧ p.bsAddress < 2 ^ 24 ∧ p.sourceAddress < 2 ^ 24 ∧
-      p = { base p.lastBlock p.protectFlag p.csbko p.fid p.crc with
-            bsAddress := p.bsAddress, sourceAddress := p.sourceAddress })
-  ∨ (p.csbko = opUuVReq ∧ optIs p.serviceOptions ServiceOptions.WF ∧
-      p.targetAddress < 2 ^ 24 ∧ p.sourceAddress < 2 ^ 24 ∧
-      p = { base p.lastBlock p.protectFlag p.csbko p.fid p.crc with
-            serviceOptions := p.serviceOptions, targetAddress := p.targetAddress,
-            sourceAddress := p.sourceAddress })
-  ∨ (p.csbko = opUuAnsRsp ∧ optIs p.serviceOptions ServiceOptions.WF ∧
-      optIs p.answerResponse (fun v => eAnswerResponse.defined v = true) ∧
-      p.targetAddress < 2 ^ 24 ∧ p.sourceAddress < 2 ^ 24 ∧
-      p = { base p.lastBlock p.protectFlag p.csbko p.fid p.crc with
-            serviceOptions := p.serviceOptions, answerResponse := p.answerResponse,
-            targetAddress := p.targetAddress, sourceAddress := p.sourceAddress })
-  ∨ (p.csbko = opNackRsp ∧
-      optIs p.additionalInformationField (fun v => eAdditionalInformationField.defined v = true) ∧
-      optIs p.sourceType (fun v => eSourceType.defined v = true) ∧
-      optIs p.serviceType (fun v => eCsbkOpcodes.defined v = true) ∧
-      optIs p.reasonCode (fun v => eReasonCode.defined v = true) ∧
-      p.targetAddress < 2 ^ 24 ∧ p.sourceAddress < 2 ^ 24 ∧
-      p = { base p.lastBlock p.protectFlag p.csbko p.fid p.crc with
-            additionalInformationField := p.additionalInformationField, sourceType := p.sourceType,
-            serviceType := p.serviceType, reasonCode := p.reasonCode,
-            targetAddress := p.targetAddress, sourceAddress := p.sourceAddress })
-  ∨ (p.csbko = opPreamble ∧ p.blocksToFollow < 2 ^ 8 ∧
-      p.targetAddress < 2 ^ 24 ∧ p.sourceAddress < 2 ^ 24 ∧
-      p = { base p.lastBlock p.protectFlag p.csbko p.fid p.crc with
-            contentFollowsPreambles := p.contentFollowsPreambles,
-            targetIsIndividual := p.targetIsIndividual, blocksToFollow := p.blocksToFollow,
-            targetAddress := p.targetAddress, sourceAddress := p.sourceAddress })
-  ∨ (p.csbko = opChannelTiming ∧ p.syncAge < 2 ^ 11 ∧ p.generation < 2 ^ 5 ∧
-      p.leaderIdentifier < 2 ^ 20 ∧ p.newLeader < 2 ∧
-      eDynamicIdentifier.defined p.leaderDynamicIdentifier = true ∧
-      eChannelTimingOpcode.defined p.channelTimingOpcode = true ∧
-      p.sourceIdentifier < 2 ^ 20 ∧ eDynamicIdentifier.defined p.sourceDynamicIdentifier = true ∧
-      p = { base p.lastBlock p.protectFlag p.csbko p.fid p.crc with
-            syncAge := p.syncAge, generation := p.generation, leaderIdentifier := p.leaderIdentifier,
-            newLeader := p.newLeader, leaderDynamicIdentifier := p.leaderDynamicIdentifier,
-            channelTimingOpcode := p.channelTimingOpcode, sourceIdentifier := p.sourceIdentifier,
-            sourceDynamicIdentifier := p.sourceDynamicIdentifier })
-  ∨ (p.csbko = opHyteraIpscSync ∧ p.rawData.length = 8 ∧ isBytes p.rawData = true ∧
-      p = { base p.lastBlock p.protectFlag p.csbko p.fid p.crc with rawData := p.rawData })
-  ∨ (p.csbko = opAloha ∧ p.documentVersionControl < 2 ^ 3 ∧ p.alohaMask < 2 ^ 5 ∧
-      eRandomAccessServiceFunction.defined p.serviceFunction = true ∧ p.nrandWait < 2 ^ 4 ∧
-      p.tsccBackoff < 2 ^ 4 ∧ p.systemIdentityCode < 2 ^ 16 ∧ p.targetAddress < 2 ^ 24 ∧
-      p = { base p.lastBlock p.protectFlag p.csbko p.fid p.crc with
-            tsccasSupport := p.tsccasSupport, siteTimeslotSynchronized := p.siteTimeslotSynchronized,
-            documentVersionControl := p.documentVersionControl,
-            tsccIsOffsetTiming := p.tsccIsOffsetTiming, tsActiveConnection := p.tsActiveConnection,
-            alohaMask := p.alohaMask, serviceFunction := p.serviceFunction, nrandWait := p.nrandWait,
-            tsccRegRequired := p.tsccRegRequired, tsccBackoff := p.tsccBackoff,
-            systemIdentityCode := p.systemIdentityCode, targetAddress := p.targetAddress })
-  ∨ (p.csbko = opBroadcast ∧ eAnnouncementType.defined p.announcementType = true ∧
-      p.tsccBackoff < 2 ^ 4 ∧ p.systemIdentityCode < 2 ^ 16 ∧ p.broadcastParams.length = 38 ∧
-      p = { base p.lastBlock p.protectFlag p.csbko p.fid p.crc with
-            announcementType := p.announcementType, tsccRegRequired := p.tsccRegRequired,
-            tsccBackoff := p.tsccBackoff, systemIdentityCode := p.systemIdentityCode,
-            broadcastParams := p.broadcastParams }))
+  eFeatureSetIDs.defined p.fid = true ∧ p.crc < 2 ^ 16 ∧ CsbkPayload.WF p.payload
 
 instance (p : Csbk) : Decidable p.WF := by unfold WF; exact inferInstance
 
